@@ -58,8 +58,15 @@ def gen_program(r):
   in_group = {p for it in iterations.values() for p in it['predicates']}
   pool = [x for x in names if x not in in_group]
   requested = r.sample(pool, min(len(pool), r.choice([1, 1, 2, 2, 3, 4])))
+  # tables of the database that the program reads but does not produce: they reach the plan
+  # through dependency_edges (no export statement), not through data_dependency_edges
+  external = {}
+  for t in names:
+    external[t] = ['ext%d' % r.randint(0, 1)] if r.random() < 0.15 else []
+  # a data table may reach the same reader through BOTH edge sets
+  both = {t: (reads_data[t][:1] if reads_data[t] and r.random() < 0.3 else []) for t in names}
   return {'names': names, 'data': data, 'deps': deps, 'reads_data': reads_data,
-          'iterations': iterations, 'requested': requested,
+          'iterations': iterations, 'requested': requested, 'external': external, 'both': both,
           'preambles': r.choice([1, 1, 2])}
 
 
@@ -104,6 +111,10 @@ def build_executions(prog, r_order=None):
           dep.append((d, t))
       for d in prog['reads_data'][t]:
         data.append((d, t))
+      for d in (prog.get('external') or {}).get(t, []):
+        dep.append((d, t))
+      for d in (prog.get('both') or {}).get(t, []):
+        dep.append((d, t))
     its = {k: dict(it) for k, it in prog['iterations'].items()
            if any(p in export for p in it['predicates'])}
     pre = 'ATTACH common;' if prog['preambles'] == 1 else 'ATTACH common; -- types of %s' % q
@@ -249,7 +260,17 @@ def check(case, obs):
 
 def run_case_p(case):
   obs = execute(case)
-  return check(case, obs), obs
+  vs = check(case, obs)
+  if case.get('error_at') is not None and obs['outcome'] == 'engine_error':
+    # the process survives the failed execution: the same request, run again without the fault,
+    # must behave as if nothing had happened
+    clean = dict(case, error_at=None)
+    obs2 = execute(clean)
+    for v in check(clean, obs2):
+      v = dict(v)
+      v['class'] = 'after-failure:' + v['class']
+      vs.append(v)
+  return vs, obs
 
 
 def shrink(case):
@@ -261,8 +282,10 @@ def shrink(case):
       yield dict(case, program=dict(prog, requested=[x for x in prog['requested'] if x != q]))
   if prog['iterations']:
     yield dict(case, program=dict(prog, iterations={}))
+  if any((prog.get('external') or {}).values()) or any((prog.get('both') or {}).values()):
+    yield dict(case, program=dict(prog, external={}, both={}))
   if prog['data']:
-    yield dict(case, program=dict(prog, data=[], reads_data={t: [] for t in prog['names']}))
+    yield dict(case, program=dict(prog, data=[], reads_data={t: [] for t in prog['names']}, both={}))
   for t in prog['names']:
     if t in prog['requested'] or any(t in it['predicates'] for it in prog['iterations'].values()):
       continue
@@ -304,6 +327,8 @@ def run_batch_into(S, log, seed, batch, tier, n, hashseed):
         S.probes['P_requested_predicate_is_also_an_intermediate'] += 1
       if prog['data']:
         S.probes['P_external_data_tables'] += 1
+      if any((prog.get('external') or {}).values()):
+        S.probes['P_tables_read_but_not_produced'] += 1
       if prog['iterations']:
         S.probes['P_iteration_in_assembled_plan'] += 1
       if len(req) > 1:
